@@ -235,7 +235,7 @@ func TestC02(t *testing.T) {
 		{kk: true, cMin: 2, cMax: 2, sMin: 2, sMax: 2, payload: 5},
 	}
 	// (a 2-byte payload makes the body exactly as long as a header: 18 bytes)
-	sizeSets := [][]int{{0, 1, 5}, {5, 5, 5}, {1, 0, 0, 1}, {2, 2, 2, 2}}
+	sizeSets := [][]int{{0, 1, 5}, {5, 5, 5}, {1, 0, 0, 1}, {2, 2, 2, 2}, {2, 2, 3, 2}}
 	if r.Thorough() {
 		sizeSets = append(sizeSets, []int{5, 65535, 1}, []int{0, 0, 0, 0})
 	}
@@ -340,8 +340,19 @@ func TestC02(t *testing.T) {
 		}
 		_ = ow
 		var msgs, otherMsgs [][]byte
+		lengthLike := len(j.sizes) == 4 && j.sizes[0] == 2 && j.sizes[2] == 3
 		for i, s := range j.sizes {
-			msgs = append(msgs, msgOf('A', i, s))
+			m := msgOf('A', i, s)
+			if lengthLike {
+				// payloads that look like length headers (00 02), so
+				// that a body taken for a header announces a plausible
+				// length
+				m = []byte{0x00, 0x02}
+				if s == 3 {
+					m = []byte{7, 7, 7}
+				}
+			}
+			msgs = append(msgs, m)
 			otherMsgs = append(otherMsgs, msgOf('B', i, s))
 		}
 		recs, err := recordsOf(w, msgs)
